@@ -125,9 +125,37 @@ def _run_seed(mod: Any, seed: int, tier: str, index: int) -> dict[str, Any]:
     return res
 
 
-def _run_plan(mod: Any, plan: dict[str, Any]) -> dict[str, Any]:
+def _perturb_heap(pad: int) -> Any:
+    """Heap perturbation for replays of violations that depend on object addresses (an id()-keyed
+    memo in the code under test): allocate a pad-determined pattern of small containers and free
+    part of it, which shifts which freed address the next allocation of a given size receives.
+    ``pad == 0`` does nothing.  The pattern is a pure function of ``pad``."""
+    if not pad:
+        return None
+    import random
+
+    r = random.Random(pad)
+    keep: list[Any] = []
+    for _ in range(10 + pad * 3 % 50):
+        k = r.randrange(4)
+        if k == 0:
+            keep.append([None] * r.randint(0, 12))
+        elif k == 1:
+            keep.append({i: None for i in range(r.randint(0, 6))})
+        elif k == 2:
+            keep.append(tuple(range(r.randint(0, 9))))
+        else:
+            keep.append([[] for _ in range(r.randint(1, 5))])
+    for i in sorted(r.sample(range(len(keep)), len(keep) // 2), reverse=True):
+        del keep[i]
+    return keep
+
+
+def _run_plan(mod: Any, plan: dict[str, Any], pad: int = 0) -> dict[str, Any]:
+    _keep = _perturb_heap(pad)
     res = _execute(mod, plan)
     res["plan_digest"] = rng.digest(plan)
+    del _keep
     return res
 
 
@@ -252,12 +280,22 @@ class Agg:
 # worker
 # --------------------------------------------------------------------------------------------
 
+STOP_AFTER_CANDIDATES = 4
+GRACE_AFTER_FIRST_S = 12.0
+
+
 def _worker(mod: Any, tier: str, verif_seed: int, n_runs: int, deadline: float, counter: Any,
-            stop: Any, known_list: list[known.Known], keep_digests: bool, out_fd: int) -> None:
+            stop: Any, first_t: Any, known_list: list[known.Known], keep_digests: bool,
+            out_fd: int) -> None:
     agg = Agg()
     try:
         while True:
-            if stop.value:
+            # after the first violating run the batch goes on for a short while: a violation that
+            # depends on state outside the plan (object addresses) may not replay, and a second
+            # or third candidate then decides between "violation" and "could not be confirmed"
+            if stop.value >= STOP_AFTER_CANDIDATES:
+                break
+            if first_t.value and time.monotonic() >= first_t.value + GRACE_AFTER_FIRST_S:
                 break
             if time.monotonic() >= deadline:
                 break
@@ -275,7 +313,10 @@ def _worker(mod: Any, tier: str, verif_seed: int, n_runs: int, deadline: float, 
                 continue
             res.setdefault("seed", seed)
             if agg.add_run(i, res, known_list, keep_digests):
-                stop.value = 1
+                with stop.get_lock():
+                    stop.value += 1
+                    if not first_t.value:
+                        first_t.value = time.monotonic()
     except BaseException:  # noqa: BLE001
         agg.harness_errors.append("worker failure:\n" + traceback.format_exc())
     finally:
@@ -292,6 +333,7 @@ def run_batch(mod: Any, tier: str, verif_seed: int, n_runs: int, budget_s: float
     ctx = mp.get_context("fork")
     counter = ctx.Value("q", 0)
     stop = ctx.Value("i", 0)
+    first_t = ctx.Value("d", 0.0)
     deadline = time.monotonic() + budget_s
     procs = []
     for _ in range(max(1, min(workers, n_runs))):
@@ -299,7 +341,7 @@ def run_batch(mod: Any, tier: str, verif_seed: int, n_runs: int, budget_s: float
         pid = os.fork()
         if pid == 0:
             os.close(r)
-            _worker(mod, tier, verif_seed, n_runs, deadline, counter, stop, known_list,
+            _worker(mod, tier, verif_seed, n_runs, deadline, counter, stop, first_t, known_list,
                     keep_digests, w)
             os._exit(0)
         os.close(w)
@@ -324,14 +366,17 @@ def _sig_class(sig: str) -> str:
     return sig
 
 
-def _reproduces(mod: Any, plan: dict[str, Any], sig: str) -> tuple[bool, dict[str, Any] | None]:
+def _reproduces(mod: Any, plan: dict[str, Any], sig: str | None,
+                pad: int = 0) -> tuple[bool, dict[str, Any] | None]:
+    """sig None = any violation counts (replay of address-dependent violations, whose symptom
+    varies with which operation hits the stale state)."""
     try:
-        res = in_fork(_run_plan, mod, plan, timeout=min(RUN_TIMEOUT_S, 90))
+        res = in_fork(_run_plan, mod, plan, pad, timeout=min(RUN_TIMEOUT_S, 90))
     except ChildFailure:
         return False, None
     if res.get("harness_error"):
         return False, res
-    return any(v["sig"] == sig for v in res.get("violations") or []), res
+    return any(sig is None or v["sig"] == sig for v in res.get("violations") or []), res
 
 
 def minimise(mod: Any, plan: dict[str, Any], sig: str, budget_s: float = 40.0,
@@ -363,18 +408,19 @@ def minimise(mod: Any, plan: dict[str, Any], sig: str, budget_s: float = 40.0,
     return cur
 
 
-def _parallel_try(mod: Any, cands: list[dict[str, Any]], sig: str) -> list[bool]:
+def _parallel_try(mod: Any, cands: list[dict[str, Any]], sig: str,
+                  pads: list[int] | None = None) -> list[bool]:
     """Evaluate candidates concurrently (each in its own forked child); order is preserved so
     the choice of the first success does not depend on timing."""
     pipes = []
-    for cand in cands:
+    for ci, cand in enumerate(cands):
         r, w = os.pipe()
         pid = os.fork()
         if pid == 0:
             os.close(r)
             ok = False
             try:
-                ok, _ = _reproduces(mod, cand, sig)
+                ok, _ = _reproduces(mod, cand, sig, pads[ci] if pads else 0)
             except BaseException:  # noqa: BLE001
                 ok = False
             os.write(w, b"1" if ok else b"0")
@@ -409,14 +455,19 @@ def write_replay(mod: Any, seed: int, vio: dict[str, Any], minimal: dict[str, An
     return path
 
 
-def replay(mod: Any, path: str, which: str = "plan") -> int:
+MAX_PADS = 96
+
+
+def replay(mod: Any, path: str, which: str = "plan", record_pad: bool = False) -> int:
     with open(path, encoding="utf-8") as f:
         rp = json.load(f)
     plan = rp[which]
     sig = rp["expect"]["sig"]
     want_digest = rp["expect"]["digest"] if which == "plan" else rp.get("original_digest")
+    pad0 = int(((rp.get("replay_env") or {}).get(which) or {}).get("pad") or 0)
+    print(f"REPLAY {which} heap-pad={pad0} aslr={'off' if os.environ.get('VERIF_ASLR_OFF') == '1' else 'on'}")
     try:
-        res = in_fork(_run_plan, mod, plan)
+        res = in_fork(_run_plan, mod, plan, pad0)
     except ChildFailure as e:
         print(f"HARNESS-ERROR replay failed to run: {e}")
         return 2
@@ -424,6 +475,24 @@ def replay(mod: Any, path: str, which: str = "plan") -> int:
         print(f"HARNESS-ERROR in replay: {res['harness_error']}")
         return 2
     sigs = [v["sig"] for v in res.get("violations") or []]
+    pad_used = pad0
+    if not sigs:
+        # A violation that depends on object addresses (e.g. an id()-keyed memo in the code under
+        # test) needs the allocator to hand out a particular freed address again, which no plan
+        # controls.  Search a fixed list of heap perturbations; with address-space randomisation
+        # off each of them is an exactly repeatable execution.
+        pads = [p for p in range(0, MAX_PADS + 1) if p != pad0]
+        for i in range(0, len(pads), 16):
+            chunk = pads[i:i + 16]
+            oks = _parallel_try(mod, [plan] * len(chunk), None, chunk)
+            hit = next((p for p, ok in zip(chunk, oks) if ok), None)
+            if hit is not None:
+                pad_used = hit
+                res = in_fork(_run_plan, mod, plan, hit)
+                sigs = [v["sig"] for v in res.get("violations") or []]
+                print(f"REPLAY note: reproduced only under heap perturbation pad={hit}: the code "
+                      "under test depends on state outside the plan (object addresses / allocator)")
+                break
     for v in res.get("violations") or []:
         print(f"  replayed violation: {v['sig']} :: {v.get('detail', '')[:400]}")
     print(f"REPLAY digest={res.get('digest')} expected={want_digest}")
@@ -432,7 +501,17 @@ def replay(mod: Any, path: str, which: str = "plan") -> int:
             print("REPLAY note: same violation signature, but the event-log digest differs from "
                   "the recorded one: the code under test depends on something outside the plan "
                   "(e.g. object addresses / allocator state)")
+        if record_pad and pad_used != pad0:
+            rp.setdefault("replay_env", {})[which] = {
+                "pad": pad_used, "aslr": "off" if os.environ.get("VERIF_ASLR_OFF") == "1" else "on"}
+            with open(path, "w", encoding="utf-8") as f:
+                json.dump(rp, f, indent=1, sort_keys=True)
         print(f"REPLAY reproduced sig={sig}")
+        print(f"VIOLATION property={mod.PROP} replay={path}")
+        return 1
+    if sigs:
+        print(f"REPLAY reproduced a violation of {mod.PROP} with another signature than the recorded "
+              f"{sig}: {sigs} (which operation is hit varies with state outside the plan)")
         print(f"VIOLATION property={mod.PROP} replay={path}")
         return 1
     print(f"REPLAY did not reproduce sig={sig}; got {sigs}")
@@ -441,15 +520,11 @@ def replay(mod: Any, path: str, which: str = "plan") -> int:
 
 def _confirm_in_fresh_process(prop: str, path: str, which: str) -> int:
     cmd = [env.PYTHON, os.path.join(env.VERIF_ROOT, "bin", "check"), prop, "--replay", path,
-           "--which", which]
-    rc = 0
-    for _attempt in range(3):  # >1 only matters for address-dependent (allocator-chaotic) bugs
-        p = subprocess.run(cmd, capture_output=True, text=True, timeout=600,
-                           env={**os.environ, "VERIF_REPO": env.REPO})
-        rc = p.returncode
-        if rc == 1:
-            return 1
-    return rc
+           "--which", which, "--record-pad"]
+    envv = {k: v for k, v in os.environ.items() if k != "VERIF_ASLR_OFF"}
+    p = subprocess.run(cmd, capture_output=True, text=True, timeout=900,
+                       env={**envv, "VERIF_REPO": env.REPO})
+    return p.returncode
 
 
 # --------------------------------------------------------------------------------------------
@@ -465,6 +540,8 @@ def main(argv: list[str]) -> int:
                     choices=["quick", "thorough"])
     ap.add_argument("--replay")
     ap.add_argument("--which", default="plan", choices=["plan", "original_plan"])
+    ap.add_argument("--record-pad", action="store_true",
+                    help="(internal) store the heap perturbation that reproduced in the replay file")
     ap.add_argument("--runs", type=int, default=None)
     ap.add_argument("--budget", type=float, default=None)
     ap.add_argument("--workers", type=int, default=None)
@@ -473,7 +550,7 @@ def main(argv: list[str]) -> int:
     ap.add_argument("--no-evidence", action="store_true")
     a = ap.parse_args(argv)
 
-    env.reexec_with_fixed_hashseed()
+    env.reexec_with_fixed_hashseed(no_aslr=bool(a.replay))
     t0 = time.monotonic()
     prop = a.prop.upper()
     mod = importlib.import_module(f"checks.{prop.lower()}")
@@ -489,7 +566,7 @@ def main(argv: list[str]) -> int:
     sys.stdout.flush()
 
     if a.replay:
-        rc = replay(mod, a.replay, a.which)
+        rc = replay(mod, a.replay, a.which, record_pad=a.record_pad)
         env.cleanup_now()
         return rc
 
@@ -511,35 +588,57 @@ def main(argv: list[str]) -> int:
     for key, n in sorted(agg.known_hits.items()):
         print(f"KNOWN-FINDING: property={prop} {key} ({n} runs) {agg.known_examples.get(key, '')[:300]}")
     if agg.violations:
-        vio = min(agg.violations, key=lambda v: v["index"])
-        print(f"violation candidate at run {vio['index']}: {vio['sig']} :: {vio['detail'][:600]}")
-        sys.stdout.flush()
-        plan0 = vio["plan"]
-        if vio.get("explicit_schedule") and isinstance(plan0.get("schedule"), dict):
-            cand = {**plan0, "schedule": vio["explicit_schedule"]}
-            ok0, _ = _reproduces(mod, cand, vio["sig"])
-            if ok0:
-                plan0 = cand
-        minimal = minimise(mod, plan0, vio["sig"],
-                           budget_s=float(os.environ.get("VERIF_MINIMISE_S") or 40))
-        ok, res = _reproduces(mod, minimal, vio["sig"])
-        if not ok:
-            minimal, res = vio["plan"], None
+        cands = sorted(agg.violations, key=lambda v: v["index"])[:STOP_AFTER_CANDIDATES]
+        unconfirmed = []
+        for vio in cands:
+            print(f"violation candidate at run {vio['index']}: {vio['sig']} :: {vio['detail'][:600]}")
+            sys.stdout.flush()
+            plan0 = vio["plan"]
+            if vio.get("explicit_schedule") and isinstance(plan0.get("schedule"), dict):
+                cand = {**plan0, "schedule": vio["explicit_schedule"]}
+                ok0, _ = _reproduces(mod, cand, vio["sig"])
+                if ok0:
+                    plan0 = cand
+            minimal = minimise(mod, plan0, vio["sig"],
+                               budget_s=float(os.environ.get("VERIF_MINIMISE_S") or 40))
             ok, res = _reproduces(mod, minimal, vio["sig"])
-        replay_path = write_replay(mod, verif_seed, vio, minimal, (res or {}).get("digest"))
-        which = "plan"
-        c = _confirm_in_fresh_process(prop, replay_path, "plan")
-        if c not in (1,):
-            which = "original_plan"
-            c = _confirm_in_fresh_process(prop, replay_path, "original_plan")
-        if c == 1:
-            print(f"replay confirmed in a fresh process ({which})")
-            print(f"VIOLATION property={prop} replay={replay_path}")
-            rc = 1
-        else:
-            print(f"HARNESS-NONDETERMINISM: violation {vio['sig']} of run {vio['index']} did not "
-                  f"reproduce from its replay file {replay_path} (fresh-process exit {c}); "
-                  "not reported as a violation")
+            if not ok:
+                minimal, res = vio["plan"], None
+                ok, res = _reproduces(mod, minimal, vio["sig"])
+            replay_path = write_replay(mod, verif_seed, vio, minimal, (res or {}).get("digest"))
+            which = "plan"
+            c = _confirm_in_fresh_process(prop, replay_path, "plan")
+            if c not in (1,):
+                which = "original_plan"
+                c = _confirm_in_fresh_process(prop, replay_path, "original_plan")
+            if c == 1:
+                if which == "original_plan":
+                    # the replay file's "plan" is what --replay executes: make it the confirmed one
+                    with open(replay_path, encoding="utf-8") as f:
+                        rp = json.load(f)
+                    rp["minimised_plan_not_confirmed"] = rp["plan"]
+                    rp["plan"] = rp["original_plan"]
+                    rp["expect"]["digest"] = rp.get("original_digest")
+                    renv = rp.setdefault("replay_env", {})
+                    renv["plan"] = renv.get("original_plan") or {}
+                    with open(replay_path, "w", encoding="utf-8") as f:
+                        json.dump(rp, f, indent=1, sort_keys=True)
+                print(f"replay confirmed in a fresh process ({which})")
+                print(f"VIOLATION property={prop} replay={replay_path}")
+                rc = 1
+                break
+            try:
+                os.replace(replay_path, replay_path[:-5] + ".unconfirmed.json")
+                replay_path = replay_path[:-5] + ".unconfirmed.json"
+            except OSError:
+                pass
+            unconfirmed.append((vio, replay_path, c))
+            replay_path = None
+        if rc != 1:
+            for vio, rpath, c in unconfirmed:
+                print(f"HARNESS-NONDETERMINISM: violation {vio['sig']} of run {vio['index']} did not "
+                      f"reproduce from its replay file {rpath} (fresh-process exit {c}); "
+                      "not reported as a violation")
             rc = 3
     if agg.harness_errors and rc == 0:
         for e in agg.harness_errors[:10]:
